@@ -11,6 +11,7 @@
 -/
 import FianoModel.Compress.FramingLemmas
 import FianoModel.Compress.Tie
+import FianoModel.Compress.CodeTie   -- T1 code-as-code tie (wp-t1x): audited as a tie module of this check
 
 namespace Fiano.Compress
 open X86
